@@ -30,6 +30,15 @@ Theorem c13_builtin_iff_named : forall bs i, length bs = 4%nat ->
   (vehicle_read bs = Ok (Builtin i) <-> exists nm, In (i, nm) vehicle_display_tab /\ nm ++ [0] = bs).
 Proof. exact vehicle_builtin_iff. Qed.
 
+(* ... and the classification helpers of the typed API (is_mod / is_builtin, regenerated from their source) follow the bytes: a decoded
+   value reports is_mod exactly when its 4 bytes are a mod id by the rule, is_builtin is the complement, and a value that reports
+   is_mod IS that mod - so the unknown vehicle and every built-in car are never taken for a mod *)
+Theorem c13_classification_follows_the_bytes : forall bs v, length bs = 4%nat -> vehicle_read bs = Ok v ->
+  (is_mod v = true <-> bs <> zeros4 /\ builtin_shape bs = false) /\
+  is_builtin v = negb (is_mod v) /\
+  (is_mod v = true -> v = Mod (le_dec bs)).
+Proof. exact vehicle_classification. Qed.
+
 Theorem c13_printed_name_is_wire_name : forall i nm,
   vehicle_display i = Some nm -> vehicle_write (Builtin i) = Ok (nm ++ [0]).
 Proof. exact vehicle_display_wire. Qed.
